@@ -66,6 +66,7 @@ func ReplayAll(c *core.Ctx, jobs []Job, t *Totals) {
 	if workers > 16 {
 		workers = 16
 	}
+	workers += workers / 2 // some executions wait (TCP, a stalled exchange's deadline)
 	core.ParallelFor(len(jobs), workers, func(i int) {
 		j := &jobs[i]
 		var d *Diff
@@ -205,6 +206,7 @@ func (a *Stats06) add(b *Stats06) {
 	a.LeaseRenewed += b.LeaseRenewed
 	a.LeaseNotRenewed += b.LeaseNotRenewed
 	a.RealDeclined += b.RealDeclined
+	a.ExpiryReadBack += b.ExpiryReadBack
 }
 
 // Generate is kit.Generate; as a development aid (mutation experiments against
